@@ -13,7 +13,7 @@ class C19(Prop):
     title = "Cross-thread notifications are never lost or merged; shutdown terminates"
     lean_modules = ["NV.C19.Props", "NV.C19.Global", "NV.C19.Witness"]
     theorems = ["NV.C19.model_satisfies_spec", "NV.C19.posts_delivered_exactly_once", "NV.C19.posts_multiset_preserved",
-                "NV.C19.post_refused_only_when_full",
+                "NV.C19.post_refused_only_when_full", "NV.C19.no_lost_wakeup", "NV.C19.posted_completion_wakes_next_wait",
                 "NV.C19.queue_fifo_exactly_once", "NV.C19.queue_drop_policy", "NV.C19.queue_dequeue_oldest",
                 "NV.C19.timed_join_bounded", "NV.C19.timed_join_progress",
                 "NV.C19.timer_stop_terminates", "NV.C19.timer_stop_reaches_join", "NV.C19.no_callback_after_stop"]
@@ -21,7 +21,8 @@ class C19(Prop):
     witness_theorems = ["NV.C19.Old.eventfd_merges_posts", "NV.C19.Old.not_postsDeliveredFull",
                         "NV.C19.Old.eventfd_loses_zero_post", "NV.C19.Old.posts_delivered_partial",
                         "NV.C19.Old.join_enters_pthread_join_early", "NV.C19.Old.not_timedJoinBoundedFull",
-                        "NV.C19.Old.join_hangs"]
+                        "NV.C19.Old.join_hangs",
+                        "NV.C19.Swapped.wakeup_erased", "NV.C19.Swapped.next_wait_sleeps", "NV.C19.Swapped.not_noLostWakeup"]
     consts = [("completionRingSize", "COMPLETION_RING_SIZE"),
               ("queueDropOldest", "ASYNC_QUEUE_DROP_OLDEST"),
               ("queueBlockWriter", "ASYNC_QUEUE_BLOCK_WRITER"),
@@ -132,6 +133,16 @@ class C19(Prop):
         mk("wait-max-1-rearms", ["post 1 1 1", "post 2 2 2", "post 1 3 3", "wait 1", "wait 1", "wait 1", "wait 1"])
         mk("zero-key-zero-data", ["post 1 0 0", "wait 4", "post 1 0 0", "post 2 0 0", "wait 4"])
         mk("wide-key-data", ["post 1 4294967296 4294967297", "post 2 4294967295 2147483648", "wait 8"])
+        # the window INSIDE a wait: another thread posts between the steps of async_runtime_wait (lost wake-up when the
+        # doorbell is reset after the ring was drained)
+        mk("wakeup-in-window", ["wakeup", "wbegin 4", "post 1 9 9", "wread", "wend", "wbegin 4", "wread", "wakeup", "wend",
+                                "wait 4", "wait 4"])
+        mk("post-before-doorbell-read", ["post 1 7 1", "wbegin 8", "post 2 7 2", "wread", "wend", "wait 8", "wait 8"])
+        mk("post-after-doorbell-read", ["post 1 7 1", "wbegin 8", "wread", "post 2 7 2", "wend", "wait 8", "wait 8"])
+        mk("post-in-both-windows", ["post 1 7 1", "wbegin 1", "post 2 7 2", "wread", "post 3 7 3", "wend", "wbegin 8", "wakeup",
+                                    "wread", "post 1 7 4", "wend", "wait 8", "wait 8"])
+        mk("split-wait-misuse", ["wread", "wend", "wbegin 4", "post 1 1 1", "wbegin 4", "wend", "wait 4", "wbegin 4", "wait 4",
+                                 "wend", "wread", "wread", "wend", "wait 4"])
         mk("ring-full", ["post 1 5 %d" % i for i in range(1026)] + ["wait 64"] * 17 + ["post 1 6 6", "wait 64"])
         # confirmed defect 2 (repaired): timed join before the thread stored RUNNING
         mk("join-before-running", ["wnew 1 hold", "wstate 1", "wjoin 1 50", "wrelease 1", "wstop 1", "wstep 1", "wjoin 1 50",
@@ -189,9 +200,19 @@ class C19(Prop):
                     L.append("post %d %d %d" % (p, rng.choice(KEYS), i))
             elif k == "wakeup":
                 L.append("wakeup")
-            else:
+            elif rng.chance(1, 2):
                 L.append("wait %d" % rng.weighted([(1, 4), (2, 3), (3, 2), (8, 3), (64, 3)]))
-        L += ["wait 64", "wait 64"]
+            else:
+                # one wait step by step, other threads' calls in the windows
+                def others():
+                    out = []
+                    for _ in range(rng.weighted([(0, 3), (1, 4), (2, 2), (4, 1)])):
+                        out.append("wakeup" if rng.chance(1, 5) else
+                                   "post %d %d %d" % (rng.range(1, 4), rng.choice(KEYS), rng.choice(DATA)))
+                    return out
+                L.append("wbegin %d" % rng.weighted([(1, 3), (2, 2), (8, 3), (64, 2)]))
+                L += others() + ["wread"] + others() + ["wend"]
+        L += ["wend", "wait 64", "wait 64"]
         return L
 
     def gen_q(self, rng, n):
